@@ -12,7 +12,7 @@
    by tokio and reported as JoinErrors by at_sim_end; they do not deactivate the module.
    Unwinding itself (that catch_unwind leaves tokio's and Rust's state intact) is not modelled. *)
 From Coq Require Import List NArith Bool.
-From DesVerif Require Import Life.Model Life.Base Life.Step Life.Trace Life.Frame Life.Inert Life.Events Life.Panic Life.Silent Life.Term Life.Stereo Life.Errors Life.TearDown.
+From DesVerif Require Import Life.ModelCq Life.CqInst Life.Model Life.Base Life.Step Life.Trace Life.Frame Life.Inert Life.Events Life.Panic Life.Silent Life.Term Life.Stereo Life.Errors Life.TearDown.
 Import ListNotations.
 Open Scope N_scope.
 
@@ -209,3 +209,43 @@ Example C13_end_times_differ :
   map rt (items (ends_of 1 (trace pt))) = map rt (items (ends_of 1 (trace (quieten 0 pt)))).
 Proof. vm_compute. repeat split; reflexivity. Qed.
 
+
+(* ---- composition with C01: the same clauses for the run over the calendar queue ----
+   [run_script_cq n t] (coq/Life/ModelCq.v) is the event loop of the model over des-cqueue's calendar queue with n buckets
+   of width t instead of the specification event set; Properties/C09.v [C09_run_script_over_cqueue] (Life/CqSim.v,
+   Life/CqInst.v, through the refinement relation R of C01) proves that it returns what [run_script] returns. *)
+Theorem C13_others_as_if_silent_cq : forall n t sc m, n <> 0 -> t <> 0 ->
+  others m (items (events_of (trace_cq n t sc))) = others m (items (events_of (trace_cq n t (quieten m sc)))).
+Proof. intros n t sc m Hn Ht. rewrite !trace_over_cqueue by assumption. apply C13_others_as_if_silent. Qed.
+Print Assumptions C13_others_as_if_silent_cq.
+
+Theorem C13_others_teardown_cq : forall n t sc m j, n <> 0 -> t <> 0 -> j <> m ->
+  map rt (items (ends_of j (trace_cq n t sc))) = map rt (items (ends_of j (trace_cq n t (quieten m sc)))).
+Proof. intros n t sc m j Hn Ht. rewrite !trace_over_cqueue by assumption. apply others_teardown. Qed.
+Print Assumptions C13_others_teardown_cq.
+
+Theorem C13_silent_ends_no_later_cq : forall n t sc m e e', n <> 0 -> t <> 0 ->
+  In e (trace_cq n t sc) -> In e' (trace_cq n t (quieten m sc)) -> is_end e = true -> is_end e' = true -> e_time e' <= e_time e.
+Proof. intros n t sc m e e' Hn Ht. rewrite !trace_over_cqueue by assumption. apply silent_ends_no_later. Qed.
+Print Assumptions C13_silent_ends_no_later_cq.
+
+Theorem C13_errors_exact_full_cq : forall n t sc, n <> 0 -> t <> 0 ->
+  r_err (run_script_cq n t sc) =
+  perrs sc (items (body (trace_cq n t sc))) ++ flat_map (fun m => end_errs sc m (trace_cq n t sc)) (mods sc).
+Proof. intros n t sc Hn Ht. unfold trace_cq. rewrite run_script_over_cqueue by assumption. apply errors_exact_full. Qed.
+Print Assumptions C13_errors_exact_full_cq.
+
+Theorem C13_ok_iff_cq : forall n t sc, n <> 0 -> t <> 0 -> (r_err (run_script_cq n t sc) = [] <->
+  perrs sc (items (body (trace_cq n t sc))) = [] /\ forall m, In m (mods sc) -> end_errs sc m (trace_cq n t sc) = []).
+Proof. intros n t sc Hn Ht. unfold trace_cq. rewrite run_script_over_cqueue by assumption. apply ok_iff. Qed.
+Print Assumptions C13_ok_iff_cq.
+
+(* non-vacuity: the two examples above over a queue of 4 buckets of width 3; the dead module's wake-up at 20 is fetched
+   from the calendar queue as well *)
+Example C13_nonvacuous_cq :
+  run_script_cq 4 3 px = run_script px /\ r_err (run_script_cq 4 3 px) = [(0, 0); (2, 0); (1, 1)] /\
+  map (fun e => (e_kind e, e_time e)) (skipn 5 (trace_cq 4 3 pt)) =
+    [(KLoop (EvWake 0), 3); (KLoop (EvWake 0), 20); (KEnd 0, 20); (KEnd 1, 20)] /\
+  map (fun e => (e_kind e, e_time e)) (skipn 5 (trace_cq 4 3 (quieten 0 pt))) =
+    [(KLoop (EvWake 0), 3); (KEnd 0, 3); (KEnd 1, 3)].
+Proof. vm_compute. repeat split; reflexivity. Qed.
